@@ -195,6 +195,10 @@ def ring_cases(rng, ids, tier):
                 muts += ["ring:rot", "swap:pk0:pk1", "swap:tau0:pk0", "swap:d00:c00", "swap:tau0:tau1", "tau0:dbl,tau1:dbl"]
             if quick:
                 muts = thin(rng, muts, 30)
+            if size > 1:
+                # the tag of EVERY member is verified, not only the first one's (seed C05-w2)
+                muts += [x for x in ["tau%d:dbl" % (size - 1), "tau%d:neg" % (size - 1)] + pt_muts(rng, "tau%d" % (size - 1), 1, full=False)
+                         if x not in muts]
             out += lines("smlers %d %s %d %s" % (cid, seed(rng), size, hx(m)), muts, chunk=6)
         for n in (pick_lens(rng, quick, 0 if ci else 1) if quick or ci == 0 else [0, 200]):
             m = rmsg(rng, n)
